@@ -51,6 +51,29 @@ with keys_alts (alts : jalts) : list key :=
 Lemma reg_app a l an : reg a l an = map (fun k => (k, l)) (opt_list a) ++ an.
 Proof. destruct a; reflexivity. Qed.
 
+(* ------------------------------------------------------------------ Location.__init__ under the current rules *)
+Lemma loc_start_eq s e : loc_start s e = s.
+Proof. reflexivity. Qed.
+(* a constructor called with (start, start + z) stores the size z *)
+Lemma loc_size_plus s z : loc_size s (s + z) = z.
+Proof.
+  change (loc_size s (s + z)) with (if s + z =? 0 then 0 else s + z - s).
+  destruct (s + z =? 0) eqn:E; [apply Nat.eqb_eq in E|]; lia.
+Qed.
+(* the model keeps (start, size) and takes start + size for the end (lend): that is the end the constructor stores *)
+Lemma loc_end_consistent s e : s <= e -> loc_end s e = loc_start s e + loc_size s e.
+Proof.
+  intros H.
+  change (loc_end s e) with (if e =? 0 then s else e).
+  change (loc_size s e) with (if e =? 0 then 0 else e - s). rewrite loc_start_eq.
+  destruct (e =? 0) eqn:E; [apply Nat.eqb_eq in E|]; lia.
+Qed.
+(* a $ref placeholder takes no room *)
+Lemma ref_size_0 s : ref_size s = 0.
+Proof. reflexivity. Qed.
+Lemma lsize_ref s k : lsize (LRef s k) = 0.
+Proof. reflexivity. Qed.
+
 Section Walk.
   Variable B : Type.
   Variable dcount : list B -> nat.
@@ -60,16 +83,32 @@ Section Walk.
   Notation walk_alts := (Layout.walk_alts dcount r).
 
 
-  (* unfolding equations (cbn does not refold the mutual fixpoint) *)
+  (* unfolding equations (cbn does not refold the mutual fixpoint).  Model/Layout.v evaluates the rules that
+     harness/t1_layout.py read in the source (Gen/LayoutParams.v); the equations below state what the walk is under
+     the rules as they are NOW, in the form every later proof uses, and each is proved by computation from the
+     generated parameters (plus loc_size_plus).  A source edit that changes a parameter makes them fail. *)
   Lemma walk_atom a sz st an : walk (JAtom a sz) st an = Ok (LAtom st sz, reg a (LAtom st sz) an).
-  Proof. reflexivity. Qed.
+  Proof.
+    change (walk (JAtom a sz) st an)
+      with (Ok (LAtom st (loc_size st (st + sz)), reg a (LAtom st (loc_size st (st + sz))) an) : res (loc * anchors)).
+    rewrite loc_size_plus. reflexivity.
+  Qed.
   Lemma walk_arr a n its st an :
     walk (JArr a n its) st an =
     match walk its st an with
     | Err e => Err e
     | Ok (sub, an1) => Ok (LArr st (lsize sub * n) (lsize sub) n sub its, reg a (LArr st (lsize sub * n) (lsize sub) n sub its) an1)
     end.
-  Proof. reflexivity. Qed.
+  Proof.
+    change (walk (JArr a n its) st an)
+      with (match walk its st an with
+            | Err e => Err e
+            | Ok (sub, an1) =>
+                Ok (LArr st (loc_size st (st + lsize sub * n)) (lsize sub) n sub its,
+                    reg a (LArr st (loc_size st (st + lsize sub * n)) (lsize sub) n sub its) an1)
+            end).
+    destruct (walk its st an) as [[sub an1]|ex]; [|reflexivity]. rewrite loc_size_plus. reflexivity.
+  Qed.
   Lemma walk_odo a c its st an :
     walk (JOdo a c its) st an =
     match lookup (KName c) an with
@@ -83,23 +122,27 @@ Section Walk.
         end
     | Some _ => Err TypeError
     end.
-  Proof. reflexivity. Qed.
-  Lemma walk_obj a ps st an :
-    walk (JObj a ps) st an =
-    match walk_props ps st an with
-    | Err e => Err e
-    | Ok (pls, off, an1) => Ok (LObj st (off - st) pls, reg a (LObj st (off - st) pls) an1)
-    end.
-  Proof. reflexivity. Qed.
-  Lemma walk_one a s0 rest st an :
-    walk (JOne a (ACons s0 rest)) st an =
-    match walk_alts (ACons s0 rest) st an with
-    | Err e => Err e
-    | Ok (als, an1) => Ok (LOne st (max_size als) als, reg a (LOne st (max_size als) als) an1)
-    end.
-  Proof. reflexivity. Qed.
-  Lemma walk_one_nil a st an : walk (JOne a ANil) st an = Err ValueError.
-  Proof. reflexivity. Qed.
+  Proof.
+    change (walk (JOdo a c its) st an)
+      with (match odo_count dcount r c an with
+            | Err e => Err e
+            | Ok cnt =>
+                match walk its st an with
+                | Err e => Err e
+                | Ok (sub, an1) =>
+                    Ok (LArr st (loc_size st (st + lsize sub * cnt)) (lsize sub) cnt sub its,
+                        reg a (LArr st (loc_size st (st + lsize sub * cnt)) (lsize sub) cnt sub its) an1)
+                end
+            end).
+    change (odo_count dcount r c an)
+      with (match lookup (KName c) an with
+            | None => Err KeyError
+            | Some (LAtom cst csz) => Ok (dcount (slice r cst (cst + csz)))
+            | Some _ => Err TypeError
+            end).
+    destruct (lookup (KName c) an) as [[cst csz| | | |]|]; try reflexivity.
+    destruct (walk its st an) as [[sub an1]|ex]; [|reflexivity]. rewrite loc_size_plus. reflexivity.
+  Qed.
   Lemma walk_ref k st an : walk (JRef k) st an = Ok (LRef st k, an).
   Proof. reflexivity. Qed.
   Lemma walk_props_nil off an : walk_props PNil off an = Ok (LPNil, off, an).
@@ -127,6 +170,94 @@ Section Walk.
         | Ok (ls, an2) => Ok (LACons l ls, an2)
         end
     end.
+  Proof. reflexivity. Qed.
+
+  (* the running offset of the ObjectSchema loop ends at start + the sum of the property sizes, which is the size
+     ObjectLocation.__init__ stores (obj_size_override); the proofs below use it as  off - st *)
+  Lemma walk_props_offset :
+    forall ps off an pls off' an', walk_props ps off an = Ok (pls, off', an') -> off' = off + sum_props pls.
+  Proof.
+    induction ps as [|k p rest IH]; intros off an pls off' an' H.
+    - rewrite walk_props_nil in H. injection H as <- <- <-. cbn [sum_props]. lia.
+    - rewrite walk_props_cons in H. destruct (walk p off an) as [[pl an1]|ex]; [|discriminate].
+      destruct (walk_props rest (off + lsize pl) (reg (js_anchor p) pl an1)) as [[[rl o2] an2]|ex] eqn:E; [|discriminate].
+      injection H as <- <- <-. apply IH in E. cbn [sum_props]. lia.
+  Qed.
+  (* ObjectLocation(schema, property_locations, start, offset) stores the size offset - start: either because
+     ObjectLocation.__init__ sets self.size to the sum over the properties (as it does now), or, without that
+     statement, because Location.__init__ computes end - start; the proof accepts both spellings of the source *)
+  Lemma obj_size_eq ps st an pls off an1 :
+    walk_props ps st an = Ok (pls, off, an1) -> obj_size st off pls = off - st.
+  Proof.
+    intros E. apply walk_props_offset in E.
+    first
+      [ change (obj_size st off pls) with (sum_props pls); lia
+      | change (obj_size st off pls) with (loc_size st off); subst off; rewrite loc_size_plus; lia ].
+  Qed.
+  Lemma walk_obj a ps st an :
+    walk (JObj a ps) st an =
+    match walk_props ps st an with
+    | Err e => Err e
+    | Ok (pls, off, an1) => Ok (LObj st (off - st) pls, reg a (LObj st (off - st) pls) an1)
+    end.
+  Proof.
+    change (walk (JObj a ps) st an)
+      with (match walk_props ps st an with
+            | Err e => Err e
+            | Ok (pls, off, an1) => Ok (LObj st (obj_size st off pls) pls, reg a (LObj st (obj_size st off pls) pls) an1)
+            end).
+    destruct (walk_props ps st an) as [[[pls off] an1]|ex] eqn:E; [|reflexivity].
+    rewrite (obj_size_eq _ _ _ _ _ _ E). reflexivity.
+  Qed.
+  Lemma walk_one a s0 rest st an :
+    walk (JOne a (ACons s0 rest)) st an =
+    match walk_alts (ACons s0 rest) st an with
+    | Err e => Err e
+    | Ok (als, an1) => Ok (LOne st (max_size als) als, reg a (LOne st (max_size als) als) an1)
+    end.
+  Proof.
+    change (walk (JOne a (ACons s0 rest)) st an)
+      with (match walk_alts (ACons s0 rest) st an with
+            | Err e => Err e
+            | Ok (als, an1) =>
+                Ok (LOne st (loc_size st (st + max_size als)) als, reg a (LOne st (loc_size st (st + max_size als)) als) an1)
+            end).
+    destruct (walk_alts (ACons s0 rest) st an) as [[als an1]|ex]; [|reflexivity]. rewrite loc_size_plus. reflexivity.
+  Qed.
+  Lemma walk_one_nil a st an : walk (JOne a ANil) st an = Err ValueError.
+  Proof. reflexivity. Qed.
+
+  (* NDNav under the current rules: from_instance starts at the start it is given (0 by default); name resolves a
+     $ref placeholder through its referent; index refuses index >= item_count and re-walks one occurrence from
+     start + item_size * index with a fresh LocationMaker; raw is instance[start : end] *)
+  Lemma nav_of_unf s :
+    nav_of dcount r s = match walk s 0 [] with Ok (l, an) => Ok (mknav l an) | Err e => Err e end.
+  Proof. reflexivity. Qed.
+  Lemma nav_name_unf v k :
+    nav_name v k =
+    match n_loc v with
+    | LObj _ _ ps =>
+        match find_prop k ps with
+        | None => Err KeyError
+        | Some (LRef _ t) => match lookup t (n_an v) with Some l => Ok (mknav l (n_an v)) | None => Err KeyError end
+        | Some l => Ok (mknav l (n_an v))
+        end
+    | _ => Err TypeError
+    end.
+  Proof. reflexivity. Qed.
+  Lemma nav_index_unf v i :
+    nav_index dcount r v i =
+    match n_loc v with
+    | LArr st _ isz cnt _ sch =>
+        if cnt <=? i then Err IndexError
+        else match walk sch (st + isz * i) [] with
+             | Ok (l, an) => Ok (mknav l an)
+             | Err e => Err e
+             end
+    | _ => Err TypeError
+    end.
+  Proof. reflexivity. Qed.
+  Lemma nav_raw_unf v : nav_raw r v = slice r (lstart (n_loc v)) (lend (n_loc v)).
   Proof. reflexivity. Qed.
 
   (* a walk only ever PREPENDS registrations, and only under keys that occur in the schema *)
@@ -1005,7 +1136,7 @@ Section Main.
         pose proof (assoc_find_pair u bases) as Hp.
         destruct (find (fun p => N.eqb (fst p) u) bases) as [[j extu]|]; [|discriminate]. symmetry in Hp.
         destruct (INV x u extu (or_introl eq_refl) Er Hp) as (su & lx & Hsu & Hlx & Hgx & Hrx).
-        rewrite assoc_find, Hsu. rewrite walk_props_cons, walk_ref. cbn [js_anchor reg lsize].
+        rewrite assoc_find, Hsu. rewrite walk_props_cons, walk_ref. cbn [js_anchor reg lsize]; rewrite ?ref_size_0.
         destruct (IH HWxs Hwxs Hndxs bases (off + 0) ((item_id x, su) :: seen) an Huxs) as (pls & an' & Hwp & Hgk & Hext).
         * intros u' ext' Hb. destruct (N.eqb (item_id x) u') eqn:E.
           -- apply N.eqb_eq in E. subst u'. exists su. apply assoc_cons_eq.
@@ -1070,7 +1201,7 @@ Section Main.
                 eapply (proj1 (Good_stable B dcount r e)); [exact Hg2|exact Hpres].
           -- exists (LPCons (KRedef (item_id x)) l1 (LPCons (KName (item_id x)) (LRef (off + extent e x) (KName (item_id x))) pls)), an'.
              rewrite walk_props_cons, walk_one, walk_alts_cons, Hwalk, Hwa. fold l1. cbn [js_anchor reg]. fold an4.
-             rewrite Hl1, walk_props_cons, walk_ref. cbn [js_anchor reg lsize]. rewrite Hwp.
+             rewrite Hl1, walk_props_cons, walk_ref. cbn [js_anchor reg lsize]; rewrite ?ref_size_0. rewrite Hwp.
              rewrite !Nat.add_0_r, Nat.add_assoc. split; [reflexivity|].
              assert (Hchain : forall i, In i (ids x) -> lookup (KName i) an' = lookup (KName i) an1).
              { intros i Hi. rewrite (extends_lookup _ _ _ _ Hext); [|apply (disjoint_ids x xs); assumption].
@@ -1181,7 +1312,7 @@ Section Main.
         * cbn [LayoutP.Good lstart lsize]. unfold extent. cbn [item_oc count ext1]. repeat split; lia.
         * intros _. cbn [item_id reg]. apply lookup_cons_same.
       + cbn [build_alt]. unfold elem_items. rewrite walk_arr, walk_obj, walk_props_cons, walk_atom, walk_props_nil.
-        cbn [js_anchor reg lsize]. rewrite sub_add_cancel.
+        cbn [js_anchor reg lsize]; rewrite ?ref_size_0. rewrite sub_add_cancel.
         eexists. eexists. split; [reflexivity|]. split; [|split; [reflexivity|intros H; discriminate]].
         cbn [LayoutP.Good lstart lsize]. unfold extent. cbn [item_oc count ext1]. split; [reflexivity|]. split; [lia|].
         eexists. reflexivity.
@@ -1278,7 +1409,7 @@ Section Nav.
   Lemma nav_name_resolved an ps k lk st sz :
     resolved an ps k lk -> nav_name (mknav (LObj st sz ps) an) (KName k) = Ok (mknav lk an).
   Proof.
-    intros (Hnr & [Hf|(s0 & Hf & Hl)]); unfold nav_name; cbn [n_loc n_an]; rewrite Hf.
+    intros (Hnr & [Hf|(s0 & Hf & Hl)]); rewrite nav_name_unf; cbn [n_loc n_an]; rewrite Hf.
     - destruct lk; try reflexivity. discriminate.
     - rewrite Hl. reflexivity.
   Qed.
@@ -1326,7 +1457,7 @@ Section Nav.
       + destruct x as [j sz oc rd|j oc rd ks].
         * cbn [Rel n_loc] in HR. subst l. destruct (N.eqb j k) eqn:E; [|discriminate]. injection Hs as <- <-.
           apply N.eqb_eq in E. subst k. eexists. split.
-          -- unfold nav_name. cbn [n_loc n_an find_prop]. rewrite key_eqb_refl. reflexivity.
+          -- rewrite nav_name_unf. cbn [n_loc n_an find_prop]. rewrite key_eqb_refl. reflexivity.
           -- reflexivity.
         * cbn [Rel n_loc n_an] in HR. destruct HR as (ps & -> & Hg).
           destruct (find_kid ks k) as [x|] eqn:Ef; [|discriminate]. destruct (kid_start e ks k) as [o|] eqn:Ek; [|discriminate].
@@ -1338,19 +1469,19 @@ Section Nav.
       apply Nat.ltb_lt in Ei. cbn [Rel n_loc n_an] in HR.
       destruct x as [j sz oc rd|j oc rd ks]; destruct oc as [|n|c]; try discriminate; cbn [item_oc] in Ei;
         cbn [LayoutP.Good] in HR.
-      + destruct HR as (_ & _ & sub & ->). unfold nav_index. cbn [n_loc].
+      + destruct HR as (_ & _ & sub & ->). rewrite nav_index_unf. cbn [n_loc].
         replace (count e (Times n) <=? i) with false by (symmetry; apply Nat.leb_gt; exact Ei).
-        unfold elem_items. rewrite walk_obj, walk_props_cons, walk_atom, walk_props_nil. cbn [js_anchor reg lsize].
+        unfold elem_items. rewrite walk_obj, walk_props_cons, walk_atom, walk_props_nil. cbn [js_anchor reg lsize]; rewrite ?ref_size_0.
         rewrite sub_add_cancel. eexists. split; [reflexivity|]. cbn [Rel n_loc ext1]. rewrite (Nat.mul_comm i sz). reflexivity.
-      + destruct HR as (_ & _ & sub & ->). unfold nav_index. cbn [n_loc].
+      + destruct HR as (_ & _ & sub & ->). rewrite nav_index_unf. cbn [n_loc].
         replace (count e (Odo c) <=? i) with false by (symmetry; apply Nat.leb_gt; exact Ei).
-        unfold elem_items. rewrite walk_obj, walk_props_cons, walk_atom, walk_props_nil. cbn [js_anchor reg lsize].
+        unfold elem_items. rewrite walk_obj, walk_props_cons, walk_atom, walk_props_nil. cbn [js_anchor reg lsize]; rewrite ?ref_size_0.
         rewrite sub_add_cancel. eexists. split; [reflexivity|]. cbn [Rel n_loc ext1]. rewrite (Nat.mul_comm i sz). reflexivity.
-      + destruct HR as (_ & _ & sub & -> & Hocc). unfold nav_index. cbn [n_loc].
+      + destruct HR as (_ & _ & sub & -> & Hocc). rewrite nav_index_unf. cbn [n_loc].
         replace (count e (Times n) <=? i) with false by (symmetry; apply Nat.leb_gt; exact Ei).
         destruct (Hocc (st + kids_extent e ks * i)) as (ps & an' & Hw & Hg). rewrite Hw.
         eexists. split; [reflexivity|]. cbn [Rel n_loc n_an ext1]. rewrite (Nat.mul_comm i). exists ps. split; [reflexivity|exact Hg].
-      + destruct HR as (_ & _ & sub & -> & Hocc). unfold nav_index. cbn [n_loc].
+      + destruct HR as (_ & _ & sub & -> & Hocc). rewrite nav_index_unf. cbn [n_loc].
         replace (count e (Odo c) <=? i) with false by (symmetry; apply Nat.leb_gt; exact Ei).
         destruct (Hocc (st + kids_extent e ks * i)) as (ps & an' & Hw & Hg). rewrite Hw.
         eexists. split; [reflexivity|]. cbn [Rel n_loc n_an ext1]. rewrite (Nat.mul_comm i). exists ps. split; [reflexivity|exact Hg].
@@ -1378,12 +1509,12 @@ Section Nav.
              /\ nav_raw r nv = slice r st (st + view_size e v).
   Proof.
     intros Hw Hnd. destruct (proj1 (W_all B dcount r e) t Hw Hnd 0 []) as (l & an & Hwalk & Hg & _ & _).
-    exists (mknav l an). unfold nav_of, build. rewrite Hwalk. split; [reflexivity|].
+    exists (mknav l an). rewrite nav_of_unf. unfold build. rewrite Hwalk. split; [reflexivity|].
     assert (HR : Rel (VItem t) 0 (mknav l an)) by exact Hg.
     destruct (Rel_place _ _ _ HR) as [H0 Hsz]. cbn [n_loc view_size] in *. unfold lend. rewrite H0, Hsz.
     split; [reflexivity|]. split; [reflexivity|].
     intros p v st Hs. destruct (nav_path_ok p _ _ _ _ _ HR Hs) as (nv & Hn & HRn).
-    exists nv. destruct (Rel_place _ _ _ HRn) as [H1 H2]. unfold nav_raw, lend. rewrite H1, H2. tauto.
+    exists nv. destruct (Rel_place _ _ _ HRn) as [H1 H2]. rewrite nav_raw_unf. unfold lend. rewrite H1, H2. tauto.
   Qed.
 
   (* an index at or beyond the number of occurrences is refused *)
@@ -1392,10 +1523,10 @@ Section Nav.
   Proof.
     intros HR Ht Hi. destruct nv as [l an]. cbn [Rel n_loc n_an] in HR. apply Nat.leb_le in Hi.
     destruct x as [j sz oc rd|j oc rd ks]; destruct oc as [|n|c]; try discriminate; cbn [LayoutP.Good item_oc] in *.
-    - destruct HR as (_ & _ & sub & ->). unfold nav_index. cbn [n_loc]. rewrite Hi. reflexivity.
-    - destruct HR as (_ & _ & sub & ->). unfold nav_index. cbn [n_loc]. rewrite Hi. reflexivity.
-    - destruct HR as (_ & _ & sub & -> & _). unfold nav_index. cbn [n_loc]. rewrite Hi. reflexivity.
-    - destruct HR as (_ & _ & sub & -> & _). unfold nav_index. cbn [n_loc]. rewrite Hi. reflexivity.
+    - destruct HR as (_ & _ & sub & ->). rewrite nav_index_unf. cbn [n_loc]. rewrite Hi. reflexivity.
+    - destruct HR as (_ & _ & sub & ->). rewrite nav_index_unf. cbn [n_loc]. rewrite Hi. reflexivity.
+    - destruct HR as (_ & _ & sub & -> & _). rewrite nav_index_unf. cbn [n_loc]. rewrite Hi. reflexivity.
+    - destruct HR as (_ & _ & sub & -> & _). rewrite nav_index_unf. cbn [n_loc]. rewrite Hi. reflexivity.
   Qed.
 
   Theorem layout_index_refused (t : item) :
@@ -1406,7 +1537,7 @@ Section Nav.
   Proof.
     intros Hw Hnd v0 Hv0 p x st i Hs Ht Hi.
     destruct (proj1 (W_all B dcount r e) t Hw Hnd 0 []) as (l & an & Hwalk & Hg & _ & _).
-    unfold nav_of, build in Hv0. rewrite Hwalk in Hv0. injection Hv0 as <-.
+    rewrite nav_of_unf in Hv0. unfold build in Hv0. rewrite Hwalk in Hv0. injection Hv0 as <-.
     assert (HR : Rel (VItem t) 0 (mknav l an)) by exact Hg.
     destruct (nav_path_ok p _ _ _ _ _ HR Hs) as (nv & Hn & HRn).
     exists nv. split; [exact Hn|]. eapply index_refused; eassumption.
